@@ -200,6 +200,8 @@ var payloadS = bytes.Repeat([]byte("pong from the server "), 7)
 
 type mitmResult struct {
 	hsOK, dataOK bool
+	clientErr    error // what Handshake returned
+	serverErr    error
 	lenC2S       int // bytes the client wrote
 	lenS2C       int
 	c2s, s2c     []byte // what the client wrote / read (clean runs: the genuine transcript)
@@ -262,6 +264,10 @@ func runForge(c cfgSpec, dir string, op *forgeOp, hsTimeout time.Duration) (*mit
 
 func runFiltered(c cfgSpec, mk func(side string, n net.Conn, closeBoth func()) wfilter, hsTimeout time.Duration) *mitmResult {
 	ccfg, scfg := mkConfigs(c)
+	return runFilteredCfg(ccfg, scfg, mk, hsTimeout)
+}
+
+func runFilteredCfg(ccfg, scfg *tls.Config, mk func(side string, n net.Conn, closeBoth func()) wfilter, hsTimeout time.Duration) *mitmResult {
 	res := &mitmResult{}
 	var rawC, rawS net.Conn
 	var fc, fs wfilter
@@ -295,6 +301,7 @@ func runFiltered(c cfgSpec, mk func(side string, n net.Conn, closeBoth func()) w
 		res.tags = append(res.tags, "hs:stalled-until-close")
 	}
 	res.hsOK = r.Client.Err == nil && r.Server.Err == nil && r.Client.Panic == nil && r.Server.Panic == nil
+	res.clientErr, res.serverErr = r.Client.Err, r.Server.Err
 	cc, sc := r.Client.Conn, r.Server.Conn
 
 	// data phase, every call in a goroutine of our own with recover, under a watchdog
